@@ -25,7 +25,7 @@ NOT_APPLICABLE = {
     "trees (a different technique). The numeric limits shared with C05 are decided there.",
 }
 
-PENDING = {}
+PENDING = {"C%02d" % i: "pending: check not built yet in this session" for i in range(1, 20)}
 
 
 def main() -> None:
@@ -44,7 +44,8 @@ def main() -> None:
                 "technique": c["technique"],
             }
         )
-    na = [{"property_id": k, "reason": v} for k, v in sorted({**NOT_APPLICABLE, **PENDING}.items())]
+    pend = {k: v for k, v in PENDING.items() if k not in CLAIMED and k not in NOT_APPLICABLE}
+    na = [{"property_id": k, "reason": v} for k, v in sorted({**NOT_APPLICABLE, **pend}.items())]
     m = {
         "version": 1,
         "setup_cmd": "./setup.sh",
